@@ -94,7 +94,10 @@ def scenario_files(sc):
 
 def defaults_for(sc):
     from oslo_policy import policy
-    if sc in ('defaults_permissive', 'empty_main_dir_edit', 'defaults_override_removed', 'dir_only_edit'):
+    if sc == 'defaults_override_removed':
+        # (marked deprecated for removal: the flag changes warnings, not decisions)
+        return [policy.RuleDefault('n', 'role:dflt', deprecated_for_removal=True, deprecated_reason='r', deprecated_since='s')]
+    if sc in ('defaults_permissive', 'empty_main_dir_edit', 'dir_only_edit'):
         return [policy.RuleDefault('n', 'role:dflt')]
     if sc in ('deprecated', 'deprecated_override_removed'):
         return [policy.RuleDefault('n', 'role:dflt', deprecated_rule=policy.DeprecatedRule('o', 'role:old', deprecated_reason='r', deprecated_since='s'))]
